@@ -171,16 +171,20 @@ func (v *Vue) Render(w io.Writer, filename string, data any) error {
 func (v *Vue) loadCachedWithFrontMatter(filename string) (map[string]any, []*html.Node, error) {
 	// Get current file modification time
 	var currentModTime time.Time
+	statOK := false
 	if v.templateFS != nil {
 		if info, err := fs.Stat(v.templateFS, filename); err == nil {
 			currentModTime = info.ModTime()
+			statOK = true
 		}
 	}
 
 	v.templateMu.RLock()
 	cached, ok := v.templateCache[filename]
-	if ok && (currentModTime.IsZero() || cached.modTime.Equal(currentModTime)) {
-		// Cache hit and file hasn't changed (or we can't check mtime)
+	// The cache is only trusted for a file that still exists: when Stat fails (the file was
+	// deleted, or cannot be examined) the template is loaded again, which reports the error.
+	if ok && statOK && (currentModTime.IsZero() || cached.modTime.Equal(currentModTime)) {
+		// Cache hit and file hasn't changed (or the filesystem has no mtimes, e.g. embed.FS)
 		v.templateMu.RUnlock()
 		return cached.frontMatter, cached.dom, nil
 	}
